@@ -7,16 +7,22 @@ package services
 
 import (
 	"context"
+	stdsql "database/sql"
+	"database/sql/driver"
 	"encoding/json"
+	"errors"
 	"fmt"
 	"math/big"
 	"os"
+	"path"
 	"reflect"
 	"strings"
 	"sync"
 	"testing"
 	"time"
 
+	"entgo.io/ent/dialect"
+	entsql "entgo.io/ent/dialect/sql"
 	"github.com/google/uuid"
 	"google.golang.org/grpc"
 	"google.golang.org/grpc/credentials/insecure"
@@ -26,6 +32,7 @@ import (
 	"google.golang.org/protobuf/types/known/timestamppb"
 
 	"go.6river.tech/mmmbbb/actions"
+	"go.6river.tech/mmmbbb/db"
 	"go.6river.tech/mmmbbb/defaults"
 	"go.6river.tech/mmmbbb/ent"
 	"go.6river.tech/mmmbbb/internal"
@@ -37,6 +44,7 @@ import (
 )
 
 type vScenario struct {
+	Fault   bool                        `json:"fault"`
 	Wire    bool                        `json:"wire"`
 	BaseNow string                      `json:"base_now"`
 	Rows    map[string][]map[string]any `json:"rows"`
@@ -270,6 +278,143 @@ func optStr(x any) string {
 	return x.(string)
 }
 
+// ---- storage fault injection (C09): a database/sql driver wrapping the SQLite driver that fails, or cancels the request at, one
+// chosen step of the armed operation: BEGIN, the k-th statement, or COMMIT
+type vFaultCtl struct {
+	mu     sync.Mutex
+	armed  bool
+	kind   string // "error" | "cancel"
+	at     string // "begin" | "stmt" | "commit"
+	idx    int
+	n      int
+	fired  bool
+	cancel func()
+}
+
+var vfault vFaultCtl
+var vfaultOnce sync.Once
+var errVInjected = errors.New("verif: injected storage failure")
+
+func (f *vFaultCtl) step(what string) error {
+	f.mu.Lock()
+	defer f.mu.Unlock()
+	if !f.armed || f.fired {
+		return nil
+	}
+	if what == "stmt" {
+		f.n++
+	}
+	if what != f.at || (what == "stmt" && f.n != f.idx) {
+		return nil
+	}
+	f.fired = true
+	if f.kind == "cancel" {
+		if f.cancel != nil {
+			f.cancel()
+		}
+		return context.Canceled
+	}
+	return errVInjected
+}
+
+type vFaultDriver struct{ base driver.Driver }
+
+func (d *vFaultDriver) Open(dsn string) (driver.Conn, error) {
+	c, err := d.base.Open(dsn)
+	if err != nil {
+		return nil, err
+	}
+	return &vFaultConn{c}, nil
+}
+
+type vFaultConn struct{ driver.Conn }
+
+func (c *vFaultConn) ExecContext(ctx context.Context, q string, args []driver.NamedValue) (driver.Result, error) {
+	e, ok := c.Conn.(driver.ExecerContext)
+	if !ok {
+		return nil, driver.ErrSkip
+	}
+	if err := vfault.step("stmt"); err != nil {
+		return nil, err
+	}
+	return e.ExecContext(ctx, q, args)
+}
+
+func (c *vFaultConn) QueryContext(ctx context.Context, q string, args []driver.NamedValue) (driver.Rows, error) {
+	e, ok := c.Conn.(driver.QueryerContext)
+	if !ok {
+		return nil, driver.ErrSkip
+	}
+	if err := vfault.step("stmt"); err != nil {
+		return nil, err
+	}
+	return e.QueryContext(ctx, q, args)
+}
+
+func (c *vFaultConn) PrepareContext(ctx context.Context, q string) (driver.Stmt, error) {
+	if p, ok := c.Conn.(driver.ConnPrepareContext); ok {
+		return p.PrepareContext(ctx, q)
+	}
+	return c.Conn.Prepare(q)
+}
+
+func (c *vFaultConn) BeginTx(ctx context.Context, opts driver.TxOptions) (driver.Tx, error) {
+	if err := vfault.step("begin"); err != nil {
+		return nil, err
+	}
+	var tx driver.Tx
+	var err error
+	if b, ok := c.Conn.(driver.ConnBeginTx); ok {
+		tx, err = b.BeginTx(ctx, opts)
+	} else {
+		tx, err = c.Conn.Begin() //nolint
+	}
+	if err != nil {
+		return nil, err
+	}
+	return &vFaultTx{tx}, nil
+}
+
+func (c *vFaultConn) Ping(ctx context.Context) error {
+	if p, ok := c.Conn.(driver.Pinger); ok {
+		return p.Ping(ctx)
+	}
+	return nil
+}
+
+func (c *vFaultConn) ResetSession(ctx context.Context) error {
+	if p, ok := c.Conn.(driver.SessionResetter); ok {
+		return p.ResetSession(ctx)
+	}
+	return nil
+}
+
+type vFaultTx struct{ driver.Tx }
+
+func (t *vFaultTx) Commit() error {
+	if err := vfault.step("commit"); err != nil {
+		_ = t.Tx.Rollback()
+		return err
+	}
+	return t.Tx.Commit()
+}
+
+func vFaultClient(t *testing.T) *ent.Client {
+	vfaultOnce.Do(func() {
+		base, err := stdsql.Open(db.SQLiteDriverName, db.SQLiteDSN(path.Join(t.TempDir(), "probe"), true, false))
+		if err != nil {
+			t.Fatal(err)
+		}
+		stdsql.Register("verif_fault", &vFaultDriver{base: base.Driver()})
+		_ = base.Close()
+	})
+	conn, err := db.Open("verif_fault", dialect.SQLite, db.SQLiteDSN(path.Join(t.TempDir(), "verif_fault"), true, false))
+	if err != nil {
+		t.Fatal(err)
+	}
+	return enttest.ClientForTest(t, ent.Driver(entsql.OpenDB(dialect.SQLite, conn)))
+}
+
 type vStreamStep struct {
 	req       *actions.MessageStreamRequest
 	afterSent int
@@ -330,6 +475,22 @@ func (v *vCtx) runOp(ctx context.Context, op map[string]any) (res map[string]any
 	}()
 	res["t0"] = v.toModel(time.Now())
 	defer func() { res["t1"] = v.toModel(time.Now()) }()
+	if f, ok := op["fault"].(map[string]any); ok {
+		// one injected storage failure / cancellation inside this operation (needs scenario.fault = true)
+		cctx, cancel := context.WithCancel(ctx)
+		defer cancel()
+		ctx = cctx
+		vfault.mu.Lock()
+		vfault.armed, vfault.fired, vfault.n = true, false, 0
+		vfault.kind, vfault.at, vfault.idx, vfault.cancel = f["kind"].(string), f["at"].(string), int(vInt(f["idx"])), cancel
+		vfault.mu.Unlock()
+		defer func() {
+			vfault.mu.Lock()
+			res["fault_fired"] = vfault.fired
+			vfault.armed = false
+			vfault.mu.Unlock()
+		}()
+	}
 	var act vExec
 	var results func() any
 	prune := func() actions.PruneCommonParams {
@@ -763,6 +924,8 @@ func TestVerifReplay(t *testing.T) {
 					t.Fatal(err)
 				}
 				defer conn.Close()
+			} else if sc.Fault {
+				client = vFaultClient(t)
 			} else {
 				client = enttest.ClientForTest(t)
 			}
